@@ -317,6 +317,34 @@ def check_property(s):
         return rep
     return None
 
+# ------------------------------------------------------------------ the kernel tie of the scanner to the live regex
+
+TIE_MODULE = 'I18n.Props.C11Tie'
+
+def prove_tie(chk):
+    """Props/C11Tie.lean: directive_regex (scanner = first match of the LIVE parse tree of _directive_re under the backtracking
+    semantics, group spans included), segmentation_is_finditer (the finditer loop of FormatString.__init__ = CFmt.scan),
+    generated_conversion_eq_model (Conversion.__init__ regenerated from source = CFmt.conversion).  The trees/definitions
+    are regenerated by chk.prove(..., generated=('cfmt',)) just before; a failure lands in chk.broken (then the falsifier
+    must find an input or the check reports `no-failing-input-found`)."""
+    tie = common.lean_check(TIE_MODULE, generated=(), extra_targets=(), leanchecker=chk.thorough)
+    tr = chk.lean.translation.get('cfmt', '')
+    tie_ok = tie.ok and not tr.startswith('untranslatable')
+    lean = chk.lean
+    lean.obligations += tie.obligations
+    lean.discharged += tie.discharged if tie_ok else 0
+    lean.theorems = list(lean.theorems) + list(tie.theorems)
+    lean.axioms.update(tie.axioms)
+    if not tie.ok:
+        lean.ok = False
+        lean.problems = list(lean.problems) + [TIE_MODULE + ': ' + p for p in tie.problems]
+        chk.broken.append({'kind': 'proof', 'module': TIE_MODULE, 'translation': tr, 'problems': tie.problems,
+                           'meaning': 'the scanner / finditer loop / Conversion.__init__ of the model are no longer proved equal to what was '
+                                      'regenerated from the current lib/strformat/c.py (parse tree of _directive_re, translated decision code)'})
+    chk.coverage['tie'] = {'module': TIE_MODULE, 'translator': 'tools/translate/cfmt2lean.py', 'translation': tr, 'checked': tie_ok,
+                           'theorems': tie.theorems, 'problems': tie.problems[:8]}
+    return tie_ok
+
 # ------------------------------------------------------------------ input families
 
 def stream_inputs(chk, n_single, n_multi, n_bad):
